@@ -31,13 +31,15 @@ ASSUMPTIONS = [
     "inverse-covariance weights are judged by the Pearson identity on the sum-zero subspace with an allowed regulariser of "
     "2 n^-3/2 (max-norm, basis e_i - e_last); the regulariser is assumed not to depend on sample/unbiased mode; unbiased "
     "modes are only used with num_data >= 2; 'unbiased_inverse_covariance' is read as an alias of 'inverse_unbiased_covariance'",
-    "testers have equal outcome counts within one tomography (mixed counts belong to C08); 1-qubit systems only",
+    "testers have equal outcome counts within one tomography (mixed counts belong to C08); 1-qubit systems (thorough: also one qutrit)",
     "a mode string the option constructor rejects with ValueError is outside the property (counted, not judged)",
 ]
 BOUNDS = {
-    "quick": "1 qubit; qst/povmt/qpt outcome counts 2..5, qmpt (mprocess x povm outcomes) (2,1),(3,1),(2,2),(5,1:reduced tables) "
-             "x both flags; tables: all N<=3 compositions + exact/rounded data at n=1e2,1e5; E2 sequences length <= 3 on 5 set-ups",
-    "thorough": "adds qmpt (4,1),(2,3),(3,2),(5,1) with all tables, Richardson Hessians at every selected point, E2 on 8 set-ups",
+    "quick": "1 qubit; qst/povmt/qpt outcome counts 2..5, qmpt (mprocess x povm outcomes) (2,1),(3,1),(2,2) and (5,1) with the N=1 "
+             "tables only, x both flags; tables: all N<=3 compositions + exact/rounded data at n=1e2,1e5; direct construction on "
+             "every third table; E2 sequences length <= 3 over 2 data sets x all modes on 5 set-ups",
+    "thorough": "adds qmpt (4,1),(2,3),(3,2),(5,1) with all tables, direct construction on every table, Richardson Hessians at "
+                "every selected point, E2 on 8 set-ups, qutrit qst m=3,4 / povmt m=3 / qpt m=2 (reduced tables)",
 }
 EXHAUSTIVE = {"quick": True, "thorough": True}
 CASE_TIMEOUT = 900
@@ -463,7 +465,7 @@ def run_dataset(out, su, kind, did, data, tier, direct):
     modes = SE_MODES if kind == "se" else RE_MODES
     judge = judge_se if kind == "se" else judge_re
     nmin = min(n for n, _ in data)
-    ctx = "%s(%s,%s) data=%s" % (su.typ, su.mm, su.mp, did)
+    ctx = "%s/%s(%s,%s) data=%s" % (su.typ, su.systag, su.mm, su.mp, did)
     results = {}
     nconf = 0
     for cls in classes:
@@ -543,9 +545,15 @@ def run_dataset(out, su, kind, did, data, tier, direct):
     return nconf
 
 
+def direct_for(did, tier):
+    """direct construction (no option object) is exercised on every third table and on all exact / rounded data sets"""
+    parts = did.split(":")
+    return tier == "thorough" or parts[0] != "tab" or int(parts[2]) % 3 == 0
+
+
 def ex_e1(p, seed):
     out = Out()
-    su = X.setup(p["typ"], p["flag"], p["mm"], p["mp"], seed)
+    su = X.setup(p["typ"], p["flag"], p["mm"], p["mp"], seed, p.get("sys", "Q1"))
     out.count("setup:%s:%s" % (p["typ"], p["flag"]))
     out.count("outcomes:%d" % su.m)
     total = 0
@@ -553,7 +561,7 @@ def ex_e1(p, seed):
         data = X.dataset(su, did)
         if any((q == 0).any() for _, q in data):
             out.count("tables_with_zero_entries")
-        total += run_dataset(out, su, p["loss"], did, data, p.get("tier", "quick"), p.get("direct", True))
+        total += run_dataset(out, su, p["loss"], did, data, p.get("tier", "quick"), direct_for(did, p.get("tier", "quick")))
     if p["loss"] == "re":
         g = X.entropy_grid(su)
         out.count("grid_points_skipped_near_clipping", su.grid_skipped)
@@ -576,7 +584,7 @@ def e2_alphabet(kind):
 
 def ex_e2(p, seed):
     out = Out()
-    su = X.setup(p["typ"], p["flag"], p["mm"], p["mp"], seed)
+    su = X.setup(p["typ"], p["flag"], p["mm"], p["mp"], seed, p.get("sys", "Q1"))
     cls = p["cls"]
     kind = "se" if is_se(cls) else "re"
     judge = judge_se if kind == "se" else judge_re
@@ -617,7 +625,7 @@ def ex_e2(p, seed):
         hist = "fresh" if len(seq) == 1 else ("after-raise" if raised_before and not weighted_before else
                                               "after-weighted" if weighted_before else "after-identity")
         route = "configure" if len(seq) == 1 else "reconfigure"
-        ctx = "%s(%s,%s) history=%r" % (su.typ, su.mm, su.mp, [alpha[c] for c in seq])
+        ctx = "%s/%s(%s,%s) history=%r" % (su.typ, su.systag, su.mm, su.mp, [alpha[c] for c in seq])
         out.count("e2_len%d" % len(seq))
         if not ok2:
             out.count("raises:%s:%s:%s" % (cls, modeclass(mode), mclass(su.m)))
@@ -793,16 +801,17 @@ def ex_math(p, seed):
 # ================================================================== enumeration
 
 def setups(tier):
-    """(typ, mm, mp, reduced_tables)"""
+    """(typ, mm, mp, reduced_tables, system)"""
     out = []
     for typ in ("qst", "povmt", "qpt"):
         for m in (2, 3, 4, 5):
-            out.append((typ, None, m, False))
-    out += [("qmpt", 2, 1, False), ("qmpt", 3, 1, False), ("qmpt", 2, 2, False)]
+            out.append((typ, None, m, False, "Q1"))
+    out += [("qmpt", 2, 1, False, "Q1"), ("qmpt", 3, 1, False, "Q1"), ("qmpt", 2, 2, False, "Q1")]
     if tier == "quick":
-        out.append(("qmpt", 5, 1, True))
+        out.append(("qmpt", 5, 1, True, "Q1"))
     else:
-        out += [("qmpt", 4, 1, False), ("qmpt", 5, 1, False), ("qmpt", 2, 3, False), ("qmpt", 3, 2, False)]
+        out += [("qmpt", 4, 1, False, "Q1"), ("qmpt", 5, 1, False, "Q1"), ("qmpt", 2, 3, False, "Q1"), ("qmpt", 3, 2, False, "Q1"),
+                ("qst", None, 3, False, "Q3"), ("qst", None, 4, False, "Q3"), ("povmt", None, 3, False, "Q3"), ("qpt", None, 2, True, "Q3")]
     return out
 
 
@@ -816,20 +825,21 @@ def chunked(ids, size):
 
 def families(tier, seed):
     e1 = []
-    for typ, mm, mp, reduced in setups(tier):
+    for typ, mm, mp, reduced, systag in setups(tier):
         m = outcomes_of(typ, mm, mp)
         ids = X.dataset_ids(m)
         if reduced:
-            ids = [d for d in ids if d.startswith("tab:1:") or d.startswith("tab:2:") or not d.startswith("tab")]
-        nvar = {"qst": 4, "povmt": 4 * m, "qpt": 16, "qmpt": 16 * (mm or 1)}[typ]
+            ids = [d for d in ids if d.startswith("tab:1:") or not d.startswith("tab")]
+        D = A.dim_of(systag) ** 2
+        nvar = {"qst": D, "povmt": D * m, "qpt": D * D, "qmpt": D * D * (mm or 1)}[typ]
         size_se = 12 if nvar <= 16 else 4 if nvar <= 32 else 2 if nvar <= 48 else 1
         size_re = 8 if nvar <= 16 else 4 if nvar <= 32 else 2
         for flag in (True, False):
             for blk in chunked(ids, size_se):
-                e1.append({"typ": typ, "flag": flag, "mm": mm, "mp": mp, "loss": "se", "data": blk, "tier": tier})
+                e1.append({"typ": typ, "flag": flag, "mm": mm, "mp": mp, "loss": "se", "data": blk, "tier": tier, "sys": systag})
             for blk in chunked(ids, size_re):
-                e1.append({"typ": typ, "flag": flag, "mm": mm, "mp": mp, "loss": "re", "data": blk, "tier": tier})
-    e1.sort(key=lambda c: ({"qst": 0, "povmt": 1, "qpt": 2, "qmpt": 3}[c["typ"]], outcomes_of(c["typ"], c["mm"], c["mp"])))
+                e1.append({"typ": typ, "flag": flag, "mm": mm, "mp": mp, "loss": "re", "data": blk, "tier": tier, "sys": systag})
+    e1.sort(key=lambda c: (c["sys"], {"qst": 0, "povmt": 1, "qpt": 2, "qmpt": 3}[c["typ"]], outcomes_of(c["typ"], c["mm"], c["mp"])))
     e2_setups = [("qst", True, None, 2), ("qst", False, None, 3), ("povmt", True, None, 3), ("qpt", False, None, 2),
                  ("qpt", True, None, 3)]
     if tier == "thorough":
